@@ -260,6 +260,93 @@ theorem parseFrameWith_congr (b : List Nat) (hb : BytesOk b) :
         rw [parseFieldsWith_congr fields r hr]
 
 
+theorem agree_small_0 (h : Nat) (t : List Nat) (h1 : 0 ≤ h) (h2 : h < 16) (hlt : t.length < 2 ^ 62)
+    (hp : ∀ t', h :: t ≠ 0 :: 0 :: t') : absRes (decodeFrame (h :: t)) = parseFrameWith D (h :: t) := by
+  have hcases : h = 0 ∨ h = 1 ∨ h = 2 ∨ h = 3 ∨ h = 4 ∨ h = 5 ∨ h = 6 ∨ h = 7 ∨ h = 8 ∨ h = 9 ∨ h = 10 ∨ h = 11 ∨ h = 12 ∨ h = 13 ∨ h = 14 ∨ h = 15 := by omega
+  rcases hcases with rfl | rfl | rfl | rfl | rfl | rfl | rfl | rfl | rfl | rfl | rfl | rfl | rfl | rfl | rfl | rfl
+  · apply agree_tag0
+    intro hh
+    match t, hh with
+    | x :: t', hh => simp at hh; subst hh; exact hp t' rfl
+  · exact agree_tag1 t
+  · exact agree_tag2 t hlt
+  · exact agree_tag3 t hlt
+  · exact agree_tag4 t
+  · exact agree_tag5 t
+  · exact agree_tag6 t
+  · exact agree_tag7 t
+  · exact agree_tag8 t
+  · exact agree_tag9 t
+  · exact agree_tag10 t
+  · exact agree_tag11 t
+  · exact agree_tag12 t
+  · exact agree_tag13 t
+  · exact agree_tag14 t
+  · exact agree_tag15 t
+
+theorem agree_small_16 (h : Nat) (t : List Nat) (h1 : 16 ≤ h) (h2 : h < 32) (hlt : t.length < 2 ^ 62)
+    (hp : ∀ t', h :: t ≠ 0 :: 0 :: t') : absRes (decodeFrame (h :: t)) = parseFrameWith D (h :: t) := by
+  have hcases : h = 16 ∨ h = 17 ∨ h = 18 ∨ h = 19 ∨ h = 20 ∨ h = 21 ∨ h = 22 ∨ h = 23 ∨ h = 24 ∨ h = 25 ∨ h = 26 ∨ h = 27 ∨ h = 28 ∨ h = 29 ∨ h = 30 ∨ h = 31 := by omega
+  rcases hcases with rfl | rfl | rfl | rfl | rfl | rfl | rfl | rfl | rfl | rfl | rfl | rfl | rfl | rfl | rfl | rfl
+  · exact agree_tag16 t
+  · exact agree_tag17 t
+  · exact agree_tag18 t
+  · exact agree_tag19 t
+  · exact agree_tag20 t
+  · exact agree_tag21 t
+  · exact agree_tag22 t
+  · exact agree_tag23 t
+  · exact agree_tag24 t
+  · exact agree_tag25 t
+  · exact agree_tag26 t
+  · exact agree_tag27 t
+  · exact agree_tag28 t
+  · exact agree_tag29 t
+  · exact agree_tag30 t
+  · exact agree_tag31 t
+
+theorem agree_small_32 (h : Nat) (t : List Nat) (h1 : 32 ≤ h) (h2 : h < 48) (hlt : t.length < 2 ^ 62)
+    (hp : ∀ t', h :: t ≠ 0 :: 0 :: t') : absRes (decodeFrame (h :: t)) = parseFrameWith D (h :: t) := by
+  have hcases : h = 32 ∨ h = 33 ∨ h = 34 ∨ h = 35 ∨ h = 36 ∨ h = 37 ∨ h = 38 ∨ h = 39 ∨ h = 40 ∨ h = 41 ∨ h = 42 ∨ h = 43 ∨ h = 44 ∨ h = 45 ∨ h = 46 ∨ h = 47 := by omega
+  rcases hcases with rfl | rfl | rfl | rfl | rfl | rfl | rfl | rfl | rfl | rfl | rfl | rfl | rfl | rfl | rfl | rfl
+  · exact agree_tag32 t
+  · exact agree_tag33 t
+  · exact agree_tag34 t
+  · exact agree_tag35 t
+  · exact agree_tag36 t
+  · exact agree_tag37 t
+  · exact agree_tag38 t
+  · exact agree_tag39 t
+  · exact agree_tag40 t
+  · exact agree_tag41 t
+  · exact agree_tag42 t
+  · exact agree_tag43 t
+  · exact agree_tag44 t
+  · exact agree_tag45 t
+  · exact agree_tag46 t
+  · exact agree_tag47 t
+
+theorem agree_small_48 (h : Nat) (t : List Nat) (h1 : 48 ≤ h) (h2 : h < 64) (hlt : t.length < 2 ^ 62)
+    (hp : ∀ t', h :: t ≠ 0 :: 0 :: t') : absRes (decodeFrame (h :: t)) = parseFrameWith D (h :: t) := by
+  have hcases : h = 48 ∨ h = 49 ∨ h = 50 ∨ h = 51 ∨ h = 52 ∨ h = 53 ∨ h = 54 ∨ h = 55 ∨ h = 56 ∨ h = 57 ∨ h = 58 ∨ h = 59 ∨ h = 60 ∨ h = 61 ∨ h = 62 ∨ h = 63 := by omega
+  rcases hcases with rfl | rfl | rfl | rfl | rfl | rfl | rfl | rfl | rfl | rfl | rfl | rfl | rfl | rfl | rfl | rfl
+  · exact agree_tag48 t
+  · exact agree_tag49 t
+  · exact agree_tag50 t
+  · exact agree_tag51 t
+  · exact agree_tag52 t
+  · exact agree_tag53 t
+  · exact agree_tag54 t
+  · exact agree_tag55 t
+  · exact agree_tag56 t
+  · exact agree_tag57 t
+  · exact agree_tag58 t
+  · exact agree_tag59 t
+  · exact agree_tag60 t
+  · exact agree_tag61 t
+  · exact agree_tag62 t
+  · exact agree_tag63 t
+
 /-- structural agreement (no assumption on the varint decoder beyond being shared) -/
 theorem codec_eq_rfcWith (b : List Nat) (hb : BytesOk b) (hl : b.length < 2 ^ 62)
     (hp : ∀ t, b ≠ 0 :: 0 :: t) : absRes (decodeFrame b) = parseFrameWith D b := by
@@ -270,75 +357,13 @@ theorem codec_eq_rfcWith (b : List Nat) (hb : BytesOk b) (hl : b.length < 2 ^ 62
     by_cases hext : 64 ≤ h
     · exact agree_ext h t hext h256
     · have hlt : t.length < 2 ^ 62 := by simp at hl; omega
-      have hcases : h = 0 ∨ h = 1 ∨ h = 2 ∨ h = 3 ∨ h = 4 ∨ h = 5 ∨ h = 6 ∨ h = 7 ∨ h = 8 ∨ h = 9 ∨ h = 10 ∨ h = 11 ∨ h = 12 ∨ h = 13 ∨ h = 14 ∨ h = 15 ∨ h = 16 ∨ h = 17 ∨ h = 18 ∨ h = 19 ∨ h = 20 ∨ h = 21 ∨ h = 22 ∨ h = 23 ∨ h = 24 ∨ h = 25 ∨ h = 26 ∨ h = 27 ∨ h = 28 ∨ h = 29 ∨ h = 30 ∨ h = 31 ∨ h = 32 ∨ h = 33 ∨ h = 34 ∨ h = 35 ∨ h = 36 ∨ h = 37 ∨ h = 38 ∨ h = 39 ∨ h = 40 ∨ h = 41 ∨ h = 42 ∨ h = 43 ∨ h = 44 ∨ h = 45 ∨ h = 46 ∨ h = 47 ∨ h = 48 ∨ h = 49 ∨ h = 50 ∨ h = 51 ∨ h = 52 ∨ h = 53 ∨ h = 54 ∨ h = 55 ∨ h = 56 ∨ h = 57 ∨ h = 58 ∨ h = 59 ∨ h = 60 ∨ h = 61 ∨ h = 62 ∨ h = 63 := by omega
-      rcases hcases with rfl | rfl | rfl | rfl | rfl | rfl | rfl | rfl | rfl | rfl | rfl | rfl | rfl | rfl | rfl | rfl | rfl | rfl | rfl | rfl | rfl | rfl | rfl | rfl | rfl | rfl | rfl | rfl | rfl | rfl | rfl | rfl | rfl | rfl | rfl | rfl | rfl | rfl | rfl | rfl | rfl | rfl | rfl | rfl | rfl | rfl | rfl | rfl | rfl | rfl | rfl | rfl | rfl | rfl | rfl | rfl | rfl | rfl | rfl | rfl | rfl | rfl | rfl | rfl
-      · apply agree_tag0
-        intro hh
-        match t, hh with
-        | x :: t', hh => simp at hh; subst hh; exact hp t' rfl
-      · exact agree_tag1 t
-      · exact agree_tag2 t hlt
-      · exact agree_tag3 t hlt
-      · exact agree_tag4 t
-      · exact agree_tag5 t
-      · exact agree_tag6 t
-      · exact agree_tag7 t
-      · exact agree_tag8 t
-      · exact agree_tag9 t
-      · exact agree_tag10 t
-      · exact agree_tag11 t
-      · exact agree_tag12 t
-      · exact agree_tag13 t
-      · exact agree_tag14 t
-      · exact agree_tag15 t
-      · exact agree_tag16 t
-      · exact agree_tag17 t
-      · exact agree_tag18 t
-      · exact agree_tag19 t
-      · exact agree_tag20 t
-      · exact agree_tag21 t
-      · exact agree_tag22 t
-      · exact agree_tag23 t
-      · exact agree_tag24 t
-      · exact agree_tag25 t
-      · exact agree_tag26 t
-      · exact agree_tag27 t
-      · exact agree_tag28 t
-      · exact agree_tag29 t
-      · exact agree_tag30 t
-      · exact agree_tag31 t
-      · exact agree_tag32 t
-      · exact agree_tag33 t
-      · exact agree_tag34 t
-      · exact agree_tag35 t
-      · exact agree_tag36 t
-      · exact agree_tag37 t
-      · exact agree_tag38 t
-      · exact agree_tag39 t
-      · exact agree_tag40 t
-      · exact agree_tag41 t
-      · exact agree_tag42 t
-      · exact agree_tag43 t
-      · exact agree_tag44 t
-      · exact agree_tag45 t
-      · exact agree_tag46 t
-      · exact agree_tag47 t
-      · exact agree_tag48 t
-      · exact agree_tag49 t
-      · exact agree_tag50 t
-      · exact agree_tag51 t
-      · exact agree_tag52 t
-      · exact agree_tag53 t
-      · exact agree_tag54 t
-      · exact agree_tag55 t
-      · exact agree_tag56 t
-      · exact agree_tag57 t
-      · exact agree_tag58 t
-      · exact agree_tag59 t
-      · exact agree_tag60 t
-      · exact agree_tag61 t
-      · exact agree_tag62 t
-      · exact agree_tag63 t
+      by_cases c1 : h < 16
+      · exact agree_small_0 h t (by omega) c1 hlt hp
+      by_cases c2 : h < 32
+      · exact agree_small_16 h t (by omega) c2 hlt hp
+      by_cases c3 : h < 48
+      · exact agree_small_32 h t (by omega) c3 hlt hp
+      exact agree_small_48 h t (by omega) (by omega) hlt hp
 
 /-- the implementation model agrees with the RFC transcription on every in-range byte string that
     does not start with a run of two or more PADDING bytes -/
